@@ -206,7 +206,7 @@ func c04Leaves() []c04Leaf {
 // every payload carries the marker zqx, so that a planted value can be found again in the output
 var c04Payloads = []string{
 	";zqx", "{zqx", "}zqx", "\"zqx", "'zqx", "zqx\\", "\nzqx", "#zqx", " #zqx", "$zqx", "${zqx}", "; zqx on;", "\"; zqx on; #", "' zqx", "\\\"zqx",
-	"}\nzqx{", " zqx", "\tzqx", "zqx",
+	"}\nzqx{", " zqx", "\tzqx",
 }
 
 // c04Run runs the real pipeline and returns the .conf files, whether the marker is in other generated
